@@ -9,10 +9,14 @@ from bounded.common import Suite, FmtStr, Chunk, fmtstr, cells, mk, layouts
 LEVEL = "exploration"
 CONTRACTS = [F.setslice]
 ASSUMPTIONS = [
-    "FSArray.__setitem__/__getitem__/fsarray (comprehensions over zip, float division in slicesize) are not under deductive "
-    "contract; they are decided by the bounded suite against a cell-grid model.  Deductively proved: the row primitive "
-    "FmtStr.setslice_with_length over the contract of splice (C09)",
-    "slicesize's float division is exact below 2**53; explicit row stops (an open row slice allocates sys.maxsize rows)",
+    "deductively proved: the row primitive FmtStr.setslice_with_length over the contract of splice (C09), and FSArray.__setitem__ for "
+    "a[r0:r1, c0:c1] = [FmtStr rows] over the contracts of the row primitive and normalize_slice (rows outside the region untouched, "
+    "region rows = the primitive's result for the matching block row, growth downward by blank rows, error atomicity on EVERY exceptional "
+    "exit); the error-message branch of __setitem__ (wrong number of rows) is abstracted to 'raises, heap unchanged' after a syntactic "
+    "check that it stores to plain locals only and ends in raise; blocks of plain str / FSArray blocks, int and open indices, "
+    "__getitem__ and fsarray are decided by the bounded suite against a cell-grid model",
+    "slicesize's float division is exact below 2**53 (obligation safe.float_exact under r1, width < 2**52); explicit row stops (an open "
+    "row slice allocates sys.maxsize rows)",
     "empty regions (zero rows or columns) with a non-empty block are not judged (the statement is silent)",
 ]
 BL = (" ", ())
@@ -244,7 +248,29 @@ def bounded(check, tier, seed):
     s.done()
 
 
+def contract_probe(n=2500):
+    """concrete assignment histories for the deductive contracts of FSArray (heap objects: no model to replay); the listed known
+    finding (over-long row spilling into the blank tail) is not a witness for another obligation and is skipped"""
+    out = []
+    for seed in range(n):
+        H, W, hist, ctor = _rand_history(seed)
+        try:
+            d = apply_history(H, W, hist, ctor)
+        except Exception as e:      # noqa: BLE001
+            continue
+        if d and "spilled into the blank tail" not in d:
+            case = dict(H=H, W=W, hist=[list(h) for h in hist], ctor=ctor)
+            out.append(("C04.history", dict(history=case), d, {"kind": "suite", "module": "props.C04", "case": case}))
+            if len(out) >= 3:
+                break
+    return out
+
+
 def run(check, tier, seed):
+    import contracts.fsarray as FSA
     for c in CONTRACTS:
+        verify(c, tier, check)
+    for c in FSA.ALL:
+        c.probe = contract_probe
         verify(c, tier, check)
     bounded(check, tier, seed)
